@@ -150,6 +150,14 @@ func (f *frame) checkAsserts(ins ssa.Instruction, in string, st *State) {
 		}
 		f.assertHit[i] = true
 		env := f.baseEnv(st)
+		if ci, isCall := ins.(ssa.CallInstruction); isCall {
+			for _, a := range ci.Common().Args {
+				env.callArgs = append(env.callArgs, f.val(a))
+			}
+			if env.callArgs == nil {
+				env.callArgs = []Val{}
+			}
+		}
 		b := ins.Block()
 		env.lookup = func(name string) (Val, bool) {
 			// loop counters of enclosing loops
